@@ -616,11 +616,15 @@ impl DirTourist {
 					if ft.is_dir() {
 						// VCS metadata directories are never entered, whatever the ignore files say
 						// (a negated pattern on a parent directory would otherwise re-include them)
-						if is_vcs_metadata_dir(&path) || !self.filter.check_dir(&path) {
+						if is_vcs_metadata_dir(&path) {
 							trace!("path is ignored, adding to skip list");
 							self.skip(path);
 							continue;
 						}
+
+						// Whether the directory is ignored is decided when it is visited: the ignore
+						// files of the directory being listed apply to it too (they may re-include
+						// it with a negated pattern), and those are only loaded after this listing.
 
 						trace!("found a dir, adding to list");
 						self.to_visit.push(path);
